@@ -30,7 +30,7 @@ from typing import Any, Callable
 
 from btcsim.core.ctx import Ctx
 from btcsim.core.runner import Plan
-from btcsim.worlds.w4b_hostile import P19, _call, _on_vtalrm
+from btcsim.worlds.w4b_hostile import P19, _call, _on_vtalrm, memory_budget
 
 PK1 = "0279be667ef9dcbbac55a06295ce870b07029bfcdb2dce28d959f2815b16f81798"
 PK2 = "03f9308a019258c31049344f85f89d5229b531c845836f99b08601f113bce036f9"
@@ -332,6 +332,11 @@ def damage(ch: Any, text: str) -> tuple[Any, str]:
 
 
 def run(ctx: Ctx) -> None:
+    with memory_budget():
+        _run(ctx)
+
+
+def _run(ctx: Ctx) -> None:
     ch = ctx.ch
     old = signal.signal(signal.SIGVTALRM, _on_vtalrm)
     try:
